@@ -366,6 +366,12 @@ func (s *pState) flush(cw *cwriter.Writer, height int, iter <-chan *Bar) error {
 	var err error
 	var popCount int
 	var rows []io.Reader
+	var pending []pushData
+	// heap manager doesn't drain its queue while iterating, therefore
+	// bars are pushed back only after iteration is over
+	push := func(b *Bar, sync bool) {
+		pending = append(pending, pushData{b, sync})
+	}
 
 	for b := range iter {
 		frame := <-b.frameCh
@@ -375,7 +381,7 @@ func (s *pState) flush(cw *cwriter.Writer, height int, iter <-chan *Bar) error {
 			for _, row := range frame.rows {
 				_, _ = io.Copy(io.Discard, row)
 			}
-			s.hm.push(b, false)
+			push(b, false)
 			continue
 		}
 		if frame.err != nil {
@@ -399,13 +405,13 @@ func (s *pState) flush(cw *cwriter.Writer, height int, iter <-chan *Bar) error {
 			if qb, ok := s.queueBars[b]; ok {
 				delete(s.queueBars, b)
 				qb.priority = b.priority
-				s.hm.push(qb, true)
+				push(qb, true)
 			} else if s.popCompleted && !frame.noPop {
 				b.priority = s.popPriority
 				s.popPriority++
-				s.hm.push(b, false)
+				push(b, false)
 			} else if !frame.rmOnComplete {
-				s.hm.push(b, false)
+				push(b, false)
 			}
 		case 2:
 			if s.popCompleted && !frame.noPop {
@@ -414,8 +420,12 @@ func (s *pState) flush(cw *cwriter.Writer, height int, iter <-chan *Bar) error {
 			}
 			fallthrough
 		default:
-			s.hm.push(b, false)
+			push(b, false)
 		}
+	}
+
+	for _, data := range pending {
+		s.hm.push(data.bar, data.sync)
 	}
 
 	if err != nil {
